@@ -208,7 +208,7 @@ func appendTextValue(buf *[]byte, v slog.Value, colorful bool) {
 				appendTextString(buf, vv.Value)
 			}
 		} else if vv, ok := va.(error); ok {
-			appendTextString(buf, vv.Error())
+			appendTextString(buf, errorString(vv))
 		} else if vv, ok := va.([]byte); ok {
 			appendTextString(buf, string(vv))
 		} else {
